@@ -8,10 +8,13 @@
 (* in `lay` but do not occur in the specification: the same abstract       *)
 (* result is required whatever the layout (LayoutUnobservable).            *)
 (* The ring is Z_P (exact rationals logged as residues) or, with P = 0,    *)
-(* the integers (i32/i64/f32/f64 monomorphisations on small integers).     *)
+(* the integers (i32/i64/f32/f64 monomorphisations on small integers), or, *)
+(* with P = PPoly, the free commutative ring: the code was run on free      *)
+(* symbols and each recorded result is the polynomial it computes for      *)
+(* every input, compared with the specification's polynomial.              *)
 (***************************************************************************)
 EXTENDS VekXform, TLC, Json, IOUtils
-Rec == ndJsonDeserialize(IOEnv.TRACE)
+Rec == DecodeTrace(ndJsonDeserialize(IOEnv.TRACE))
 VARIABLE l
 
 Mat2H(h, a, b) ==
